@@ -37,55 +37,85 @@ struct Expect {
     tagv0: u8,
 }
 
-/// Patch symbolic value bytes into `t` at the generated positions; return what they denote.
+/// Which single member carries symbolic value bytes.  Only ONE site per harness, and it is
+/// the *last* member of the text: an early exit after a symbolic decision makes the read
+/// position a non-constant for everything parsed afterwards (measured: > 10 min, > 14 GB
+/// with several sites), so the symbolic decision has to be the last thing parsed.
+#[derive(Clone, Copy, PartialEq)]
+enum Site {
+    Id,
+    Pk,
+    Sig,
+    Kind,
+    At,
+    Content,
+    TagV,
+}
+
+/// Patch the symbolic bytes of one site into `t`; return what the patched text denotes.
 /// `kd`/`ad` = number of digits of kind / created_at in the skeleton.
-fn patch_values(t: &mut [u8], idp: usize, pkp: usize, sgp: usize, kp: usize, kd: usize, ap: usize, ad: usize,
-                cp: usize, tp: usize) -> Expect {
-    let mut e = Expect { id: ID_BIN, pk: PK_BIN, sig: SIG_BIN, kind: 0, at: 0, content0: 0, tagv0: 0 };
-    // first and last hex digit of id, pubkey, sig
-    let (a, b) = (any_hex_digit(), any_hex_digit());
-    t[idp] = a;
-    t[idp + 63] = b;
-    e.id[0] = (hex_val(a) << 4) | (e.id[0] & 0x0f);
-    e.id[31] = (e.id[31] & 0xf0) | hex_val(b);
-    let (a, b) = (any_hex_digit(), any_hex_digit());
-    t[pkp] = a;
-    t[pkp + 63] = b;
-    e.pk[0] = (hex_val(a) << 4) | (e.pk[0] & 0x0f);
-    e.pk[31] = (e.pk[31] & 0xf0) | hex_val(b);
-    let (a, b) = (any_hex_digit(), any_hex_digit());
-    t[sgp] = a;
-    t[sgp + 127] = b;
-    e.sig[0] = (hex_val(a) << 4) | (e.sig[0] & 0x0f);
-    e.sig[63] = (e.sig[63] & 0xf0) | hex_val(b);
-    // kind: all digits arbitrary, no leading zero
-    let mut i = 0;
-    while i < kd {
-        let d = any_digit();
-        if i == 0 {
-            kani::assume(d != b'0');
+fn patch_site(t: &mut [u8], site: Site, idp: usize, pkp: usize, sgp: usize, kp: usize, kd: usize, ap: usize, ad: usize,
+              cp: usize, tp: usize, kind0: u32, at0: u128) -> Expect {
+    let mut e = Expect { id: ID_BIN, pk: PK_BIN, sig: SIG_BIN, kind: kind0, at: at0, content0: b'h', tagv0: b'a' };
+    match site {
+        Site::Id => {
+            let (a, b) = (any_hex_digit(), any_hex_digit());
+            t[idp] = a;
+            t[idp + 63] = b;
+            e.id[0] = (hex_val(a) << 4) | (e.id[0] & 0x0f);
+            e.id[31] = (e.id[31] & 0xf0) | hex_val(b);
         }
-        t[kp + i] = d;
-        e.kind = e.kind * 10 + (d - b'0') as u32;
-        i += 1;
-    }
-    // created_at: all digits arbitrary, no leading zero
-    i = 0;
-    while i < ad {
-        let d = any_digit();
-        if i == 0 {
-            kani::assume(d != b'0');
+        Site::Pk => {
+            let (a, b) = (any_hex_digit(), any_hex_digit());
+            t[pkp] = a;
+            t[pkp + 63] = b;
+            e.pk[0] = (hex_val(a) << 4) | (e.pk[0] & 0x0f);
+            e.pk[31] = (e.pk[31] & 0xf0) | hex_val(b);
         }
-        t[ap + i] = d;
-        e.at = e.at * 10 + (d - b'0') as u128;
-        i += 1;
+        Site::Sig => {
+            let (a, b) = (any_hex_digit(), any_hex_digit());
+            t[sgp] = a;
+            t[sgp + 127] = b;
+            e.sig[0] = (hex_val(a) << 4) | (e.sig[0] & 0x0f);
+            e.sig[63] = (e.sig[63] & 0xf0) | hex_val(b);
+        }
+        Site::Kind => {
+            e.kind = 0;
+            let mut i = 0;
+            while i < kd {
+                let d = any_digit();
+                if i == 0 {
+                    kani::assume(d != b'0');
+                }
+                t[kp + i] = d;
+                e.kind = e.kind * 10 + (d - b'0') as u32;
+                i += 1;
+            }
+        }
+        Site::At => {
+            e.at = 0;
+            let mut i = 0;
+            while i < ad {
+                let d = any_digit();
+                if i == 0 {
+                    kani::assume(d != b'0');
+                }
+                t[ap + i] = d;
+                e.at = e.at * 10 + (d - b'0') as u128;
+                i += 1;
+            }
+        }
+        Site::Content => {
+            let c = any_plain();
+            t[cp] = c;
+            e.content0 = c;
+        }
+        Site::TagV => {
+            let v = any_plain();
+            t[tp] = v;
+            e.tagv0 = v;
+        }
     }
-    let c = any_plain();
-    t[cp] = c;
-    e.content0 = c;
-    let v = any_plain();
-    t[tp] = v;
-    e.tagv0 = v;
     e
 }
 
@@ -102,7 +132,15 @@ fn check_event(ev: &crate::Event, e: &Expect) {
     assert!(ev.sig().as_slice()[j] == e.sig[j]);
     let c = ev.content();
     assert!(c.len() == 3 && c[0] == e.content0 && c[1] == b'i' && c[2] == b'\n');
-    let t = ev.tags().unwrap();
+    // (no `.unwrap()` on a Result: its failure path drags Debug formatting of the error type
+    // and the drop glue of boxed errors into symbolic execution)
+    let t = match ev.tags() {
+        Ok(t) => t,
+        Err(err) => {
+            core::mem::forget(err);
+            panic!("tags() failed on a successfully parsed event")
+        }
+    };
     assert!(t.count() == 3);
     let s00 = t.get_string(0, 0).unwrap();
     assert!(s00.len() == 1 && s00[0] == b'e');
